@@ -180,24 +180,31 @@ RangeSetAct(i) ==
 ZerosR(n) == [k \in 1..n |-> ZeroR]
 ArrD(v) == [k \in 1..Len(v) |-> DOf(v[k])]
 ArrP(v) == IF \A k \in 1..Len(v) : DExp(src, v[k]) # <<>> THEN [k \in 1..Len(v) |-> DExp(src, v[k])] ELSE <<>>   \* <<>>: not predicted
+(* share: a second array takes over the column (mpt_array_clone: same storage until one of them is changed); *)
+(* whatever is appended to the column afterwards, the sibling keeps reporting what it took over               *)
+PShare ==
+  /\ arr.has
+  /\ arr' = [arr EXCEPT !.sib = arr.v]
+  /\ obs' = [a |-> "pshare", arg |-> [x |-> 0], exp |-> [ret |-> "ok", arr |-> ArrP(arr.v), sib |-> ArrP(arr.v)]]
+  /\ UNCHANGED <<src, inst>>
 PrepareAct(n) ==
   LET L == Len(arr.v)
       ok == n >= 0 \/ (arr.has /\ L >= -n)
       new == IF n >= 0 THEN ZerosR(n) ELSE SubSeq(arr.v, L + n + 1, L)
   IN
-  /\ arr' = IF ok THEN [has |-> TRUE, v |-> arr.v \o new] ELSE arr
+  /\ arr' = IF ok THEN [arr EXCEPT !.has = TRUE, !.v = arr.v \o new] ELSE arr
   /\ obs' = [a |-> "prepare", arg |-> [len |-> n],
-             exp |-> [ret |-> IF ok THEN "ok" ELSE "refused", arr |-> ArrD(arr'.v), at |-> IF ok THEN L ELSE -1]]
+             exp |-> [ret |-> IF ok THEN "ok" ELSE "refused", arr |-> ArrP(arr'.v), sib |-> ArrP(arr.sib), at |-> IF ok THEN L ELSE -1]]
   /\ UNCHANGED <<src, inst>>
 PrepareFill(i, len, ld) ==
   LET I == inst[i] k == Take(I, len) L == Len(arr.v)
       new == [j \in 1..(len * ld) |-> IF (j - 1) % ld = 0 /\ (j - 1) \div ld < k THEN I.seq[I.pos + ((j - 1) \div ld) + 1] ELSE ZeroR]
   IN
   /\ i \in 1..Len(inst) /\ len > 0
-  /\ arr' = [has |-> TRUE, v |-> arr.v \o new]
+  /\ arr' = [arr EXCEPT !.has = TRUE, !.v = arr.v \o new]
   /\ inst' = [inst EXCEPT ![i] = Moved(I, k)]
   /\ obs' = [a |-> "prepare", arg |-> [len |-> len, i |-> i, ld |-> ld],
-             exp |-> [ret |-> "ok", arr |-> ArrP(arr'.v), at |-> L, n |-> k, how |-> HowOf("loop", I, len)]]
+             exp |-> [ret |-> "ok", arr |-> ArrP(arr'.v), sib |-> ArrP(arr.sib), at |-> L, n |-> k, how |-> HowOf("loop", I, len)]]
   /\ UNCHANGED src
 
 ---------------------------------------------------------------------------
@@ -215,21 +222,34 @@ ReadRows(T, s, rows, cols) ==      \* values in reading order
   ELSE [j \in 1..cols |-> T[s + j - 1][1]] \o ReadRows(T, SkipLine(T, s + cols, T[s + cols - 1][2]), rows - 1, cols)
 Sentinel == <<-12345, 1>>
 CellOf(m, rows, cols, order) == IF order = "row" THEN m ELSE ((m - 1) \div cols) + rows * ((m - 1) % cols) + 1
-VFileCells(lines, rows, cols, order, data) ==
-  LET R == ReadRows(Toks(lines, 1), 1, rows, cols) IN
+RECURSIVE AfterRows(_, _, _, _)
+AfterRows(T, s, rows, cols) ==     \* where the stream stands after a call: behind the line in which its last row was completed
+  IF rows = 0 THEN s
+  ELSE IF s + cols - 1 > Len(T) THEN Len(T) + 1
+  ELSE AfterRows(T, SkipLine(T, s + cols, T[s + cols - 1][2]), rows - 1, cols)
+BlockCells(R, rows, cols, order, data) ==
   [c \in 1..(rows * cols) |->
      LET M == {m \in 1..Len(R) : CellOf(m, rows, cols, order) = c} IN
      IF data = 1 /\ M # {} THEN R[CHOOSE m \in M : TRUE] ELSE Sentinel]
-VFileOk(lines, rows, cols) == Len(ReadRows(Toks(lines, 1), 1, rows, cols)) = rows * cols
+(* consecutive calls on one stream (p.rows: rows asked for by each call): the table rows are consumed in order; every *)
+(* call fills its own block of the target                                                                              *)
+RECURSIVE VFileRun(_, _, _, _, _, _)
+VFileRun(T, s, chunks, cols, order, data) ==
+  IF chunks = <<>> THEN [rets |-> <<>>, cells |-> <<>>]
+  ELSE LET r == chunks[1]
+           R == ReadRows(T, s, r, cols)
+           rest == VFileRun(T, AfterRows(T, s, r, cols), Rest(chunks), cols, order, data)
+       IN [rets |-> <<IF Len(R) = r * cols THEN "ok" ELSE "short">> \o rest.rets,
+           cells |-> BlockCells(R, r, cols, order, data) \o rest.cells]
 RECURSIVE LinesText(_, _)
 LinesText(lines, nl) ==
   IF lines = <<>> THEN ""
   ELSE Join(lines[1], " ") \o (IF Len(lines) > 1 \/ nl = 1 THEN "\n" ELSE "") \o LinesText(Rest(lines), nl)
-VFileAct(p) ==      \* p = [lines, rows, cols, order, data, nl]
-  /\ obs' = [a |-> "vfile", arg |-> [rows |-> p.rows, cols |-> p.cols, order |-> p.order, data |-> p.data, desc |-> LinesText(p.lines, p.nl)],
+VFileAct(p) ==      \* p = [lines, rows (one entry per call), cols, order, data, nl]
+  /\ LET run == VFileRun(Toks(p.lines, 1), 1, p.rows, p.cols, p.order, p.data) IN
+     obs' = [a |-> "vfile", arg |-> [rows |-> p.rows, cols |-> p.cols, order |-> p.order, data |-> p.data, desc |-> LinesText(p.lines, p.nl)],
              lines |-> p.lines,
-             exp |-> [ret |-> IF VFileOk(p.lines, p.rows, p.cols) THEN "ok" ELSE "short",
-                      vals |-> ArrP(VFileCells(p.lines, p.rows, p.cols, p.order, p.data))]]
+             exp |-> [ret |-> run.rets, vals |-> ArrP(run.cells)]]
   /\ UNCHANGED <<src, inst>>
 
 ---------------------------------------------------------------------------
@@ -404,6 +424,7 @@ DoX(c) ==
     [] c[1] = "RS" -> RangeSetAct(c[2])
     [] c[1] = "P"  -> PrepareAct(c[2])
     [] c[1] = "PF" -> PrepareFill(c[2], c[3], c[4])
+    [] c[1] = "PS" -> PShare
     [] c[1] = "N"  -> RdNew
     [] c[1] = "VN" -> VsNew
     [] c[1] = "M"  -> ModifyT2(c[2])
@@ -414,7 +435,7 @@ DoX(c) ==
     [] c[1] = "CP" -> CopyAct(c[2])
 Untouched(c) ==     \* the variables a scripted call does not mention
   CASE c[1] \in {"V", "A", "R", "X", "C", "W", "CX", "RS"} -> UNCHANGED <<store, arr>>
-    [] c[1] \in {"P", "PF"} -> UNCHANGED store
+    [] c[1] \in {"P", "PF", "PS"} -> UNCHANGED store
     [] c[1] \in {"VF", "CP"} -> UNCHANGED <<store, arr>>
     [] OTHER -> TRUE
 
@@ -427,12 +448,12 @@ ScriptC(s) ==
      \o (IF Seekable(s) THEN <<<<"R", 1>>>> ELSE <<>>)
      \o (IF s.drv = "cxx" /\ Seekable(s) THEN <<<<"RS", 1>>, <<"RS", 1>>, <<"R", 1>>>> ELSE <<>>)
      \o (IF s.drv = "c" /\ Consumable(s)
-         THEN <<W(1, "consume", h), <<"V", 1>>, <<"CX", 1, 0, 1>>, W(1, "consume", 0), <<"R", 1>>, <<"RS", 1>>, <<"RS", 1>>, <<"R", 1>>, <<"PF", 1, n + 1, 1>>>>
+         THEN <<W(1, "consume", h), <<"V", 1>>, <<"CX", 1, 0, 1>>, W(1, "consume", 0), <<"R", 1>>, <<"RS", 1>>, <<"RS", 1>>, <<"R", 1>>, <<"PF", 1, n + 1, 1>>, <<"PS">>, <<"PF", 1, 2, 1>>, <<"P", -1>>>>
          ELSE <<>>)
 
 ---------------------------------------------------------------------------
 NoStore == [st |-> <<>>, cur |-> 0, lim |-> 0, dims |-> 0, base |-> 0]
-NoArr   == [has |-> FALSE, v |-> <<>>]
+NoArr   == [has |-> FALSE, v |-> <<>>, sib |-> <<>>]
 
 InitX ==
   /\ src \in Sources
@@ -475,6 +496,7 @@ NextX ==
      /\ nops' = nops + 1 /\ UNCHANGED <<todo, store>>
      /\ \/ \E n \in -2..2 : PrepareAct(n)
         \/ \E len \in 1..2, ld \in 1..2 : PrepareFill(1, len, ld)
+        \/ PShare
   \/ /\ todo = <<>> /\ src.fam = "store" /\ nops < src.maxops
      /\ nops' = nops + 1 /\ UNCHANGED todo
      /\ \/ \E p \in (IF src.mods = {} THEN ModSet ELSE src.mods) : ModifyT2(p)
@@ -556,9 +578,11 @@ FillsColumn ==
              /\ \A c \in 1..Len(store.vs) : c # g.col => store'.vs[c] = store.vs[c]
              /\ g.count >= 0 => Len(new) \in {g.count, Max2(g.count, Len(old.v))}
              /\ old.t \in {"", g.type} => \A k \in 1..Len(new) : new[k] = IF k <= Len(old.v) THEN old.v[k] ELSE ZeroR
+        [] a = "pshare" -> arr'.v = arr.v /\ arr'.sib = arr.v
         [] a = "prepare" /\ obs'.exp.ret = "ok" ->
              LET g == obs'.arg L == Len(arr.v) IN
              /\ SubSeq(arr'.v, 1, L) = arr.v /\ obs'.exp.at = L
+             /\ arr'.sib = arr.sib                                   \* a column sharing the storage keeps its content
              /\ "i" \notin DOMAIN g /\ g.len >= 0 => arr'.v = arr.v \o ZerosR(g.len)
              /\ "i" \notin DOMAIN g /\ g.len < 0 => -g.len <= L /\ arr'.v = arr.v \o SubSeq(arr.v, L + g.len + 1, L)
              /\ "i" \in DOMAIN g => /\ Len(arr'.v) = L + g.len * g.ld
